@@ -228,6 +228,7 @@ class ReadRoles:
         self.root = hirq.body_root(fn)
         self.lets()
         self.fields()
+        self.returned = self.returned_atoms()
 
     def atoms_in(self, e):
         """{effect id: hops} for effects whose value reaches expression e (hops = number of binding indirections)"""
@@ -324,6 +325,14 @@ class ReadRoles:
                         self.bind_pat(arm["pat"], n["scrut"])
                 elif k == "assign" and n["l"].get("k") == "path" and n["l"].get("res") == "local":
                     self.add(n["l"]["lid"], n["l"]["name"], self.atoms_in(n["r"]))
+                elif k == "for" and n["iter"].get("k") == "mcall" and n["iter"]["m"] in ("iter_mut",):
+                    # for slot in buf.iter_mut() { *slot = <read> }: the reads fill `buf`
+                    tgt = hirq.strip_wrappers(n["iter"]["recv"])
+                    slots = {lid for _nm, lid in hirq.pat_bindings(n["pat"])}
+                    if tgt.get("k") == "path" and tgt.get("res") == "local":
+                        for m2, _p2 in hirq.walk(n["body"]):
+                            if m2.get("k") == "assign" and m2["l"].get("k") == "un" and m2["l"].get("op") == "Deref" and m2["l"]["e"].get("lid") in slots:
+                                self.add(tgt["lid"], tgt["name"], self.atoms_in(m2["r"]))
                 elif k == "assignop" and n["l"].get("k") == "path" and n["l"].get("res") == "local":
                     self.add(n["l"]["lid"], n["l"]["name"], self.atoms_in(n["r"]))
                 elif k == "mcall" and n["m"] in ("push", "insert", "extend_from_slice", "push_str", "extend") and n["args"]:
@@ -351,6 +360,23 @@ class ReadRoles:
                 if tgt and "." in tgt:
                     for a, h in self.atoms_in(n["r"]).items():
                         self.role.setdefault(a, {})[tgt.split(".")[-1]] = h
+
+    def returned_atoms(self):
+        """effects whose value reaches what the function returns (its tail expression / `return` operands): for a helper
+        that returns a plain value these take the role the caller gives to the call's result"""
+        out = set()
+        root = self.root
+        tails = []
+        if root.get("k") == "block" and "expr" in root:
+            tails.append(root["expr"])
+        elif root.get("k") != "block":
+            tails.append(root)
+        for n, _ in hirq.walk(root):
+            if n.get("k") == "ret" and isinstance(n.get("e"), dict):
+                tails.append(n["e"])
+        for t in tails:
+            out |= set(self.atoms_in(t))
+        return out
 
     def count_bindings(self):
         out = set()
@@ -499,6 +525,21 @@ class Flattener:
                 role = self.wrole(cand[0], subst) if cand else ""
             else:
                 role = self.roles.role_of(L["id"]) if self.roles else "?"
+                rr_ = _RR_CACHE.get((L["fn"], id(L["body"])))
+                if rr_ is not None and role not in ("reserved", "?", "count") and not rr_.role:
+                    # a helper that builds no struct itself: what it returns is what the caller stores
+                    def retag(ts):
+                        res_ = []
+                        for tk in ts:
+                            if tk[0] in ("a", "b") and len(tk) >= 4 - (tk[0] == "b") and tk[-1] in rr_.returned and tk[-2] == "reserved":
+                                tk = tk[:-2] + (role, tk[-1])
+                            elif tk[0] == "c" and len(tk) == 4 and tk[3] in rr_.returned and tk[2] == "reserved":
+                                tk = (tk[0], tk[1], role, tk[3])
+                            elif tk[0] == "rep":
+                                tk = (tk[0], tk[1], tuple(retag(tk[2]))) + tuple(tk[3:])
+                            res_.append(tk)
+                        return res_
+                    inner = retag(inner)
             out.append(("inline", L["name"].split("::")[-1], L.get("self_ty", ""), role, tuple(inner)))
         elif n == "prim":
             if self.side == "w":
@@ -686,7 +727,11 @@ def rep_count_role(fx, it):
             return "const:%s" % c
         return "count:" + leaf(LY.norm_expr(fs.get("end")))
     s = LY.norm_expr(it)
-    s = re.sub(r"\.(iter|values|into_iter|iter_mut)\(\)$", "", s)
+    for _ in range(4):
+        s2 = re.sub(r"\.(iter|values|into_iter|iter_mut|copied|cloned)\(\)$", "", s)
+        if s2 == s:
+            break
+        s = s2
     return "len(%s)" % leaf(s)
 
 
@@ -746,6 +791,9 @@ def tokens_size(fx, toks, fixed=None):
             cnt = t[1]
             if cnt.startswith("count:"):
                 cnt = cnt[6:]
+            mfix = re.match(r"len\((?:self\.)?(\w+)\)$", cnt)
+            if mfix and (fixed or {}).get("#" + mfix.group(1)) is not None:
+                cnt = "const:%d" % fixed["#" + mfix.group(1)]       # iteration over a fixed-size array field
             if cnt.startswith("const:"):
                 lf = lin_add(lf, lin_scale(inner, int(cnt[6:])))
             elif set(inner) <= {None}:
@@ -817,21 +865,31 @@ class SizeEval:
         elif k == "if":
             self.do_if(e, env, sr, depth, as_stmt=True)
         elif k == "for":
-            # for x in coll { acc += f(x) }
+            # for x in coll { <body updating accumulators> }: evaluate the body once with every visible accumulator
+            # replaced by a marker; what the body adds to the marker is the per-element contribution
             coll = rep_count_role(self.fx, e["iter"])
             coll = coll[4:-1] if coll.startswith("len(") else coll
             names = [nm for nm, _ in hirq.pat_bindings(e["pat"])]
-            for s in (e["body"].get("stmts", []) if e["body"].get("k") == "block" else []):
-                x = s.get("e") or {}
-                if x.get("k") == "assignop" and x["op"] == "AddAssign":
-                    tgt = hirq.path_str(x["l"])
-                    inner = self.ev(x["r"], dict(env), "elem", depth)
-                    inner = {(("size(%s)" % coll) if isinstance(t, str) and t in ["size(%s)" % nm for nm in names] else t): c for t, c in inner.items()}
-                    if tgt in env:
-                        if set(inner) <= {None}:
-                            env[tgt] = lin_add(env[tgt], {"len(%s)" % coll: inner.get(None, 0)})
-                        else:
-                            env[tgt] = lin_add(env[tgt], {("sum", coll, tuple(sorted(inner.items(), key=repr))): 1})
+            inner_env = {v: {("acc", v): 1} for v in env}
+            body_ = e["body"]
+            if body_.get("k") == "block":
+                self.block(body_, inner_env, "elem", depth)
+            else:
+                self.stmt(body_, inner_env, "elem", depth)
+            for v in list(env):
+                res = inner_env.get(v)
+                if res is None or res.get(("acc", v)) != 1:
+                    if res is not None and res != {("acc", v): 1}:
+                        env[v] = {"?loop-assign(%s)" % v: 1}
+                    continue
+                step = {t: c for t, c in res.items() if t != ("acc", v)}
+                if not step:
+                    continue
+                step = {(("size(%s)" % coll) if isinstance(t, str) and t in ["size(%s)" % nm for nm in names] else t): c for t, c in step.items()}
+                if set(step) <= {None}:
+                    env[v] = lin_add(env[v], {"len(%s)" % coll: step.get(None, 0)})
+                else:
+                    env[v] = lin_add(env[v], {("sum", coll, tuple(sorted(step.items(), key=repr))): 1})
         elif k == "block":
             self.block(e, env, sr, depth)
         elif k == "match":
@@ -1223,6 +1281,9 @@ def canon(toks, side):
         elif k == "rep":
             cnt = t[1]
             body = canon(t[2], side)
+            mfix = re.match(r"len\((?:self\.)?(\w+)\)$", cnt)
+            if mfix and FIXED_CTX.get("#" + mfix.group(1)) is not None:
+                cnt = "const:%d" % FIXED_CTX["#" + mfix.group(1)]      # loop over a fixed-size array field = N explicit copies
             if cnt.startswith("const:") and all(x[0] == "res" and isinstance(x[1], int) for x in body):
                 push_res(int(cnt[6:]) * sum(x[1] for x in body))
                 continue
@@ -1269,6 +1330,15 @@ def canon(toks, side):
     if tail_children is not None:
         push_children(tail_children)
     return out
+
+
+FIXED_CTX = {}
+
+
+def set_fixed(fixed):
+    """element counts of the fixed-size array fields of the box whose layouts are about to be canonicalised"""
+    FIXED_CTX.clear()
+    FIXED_CTX.update(fixed or {})
 
 
 def contains_hdr(ts):
